@@ -31,7 +31,7 @@ FAULTS = [
     ("bad-character", "$"), ("bad-character", "lda #1 ?"), ("unterminated-string", ".ascii 'abc"),
     ("unterminated-comment", "/* never closed"), ("unknown-keyword", ".bogus 1"), ("bad-size", "lda.q #1"),
     ("bad-index", "lda 1,z"), ("syntax", "lda (1"), ("syntax", "}"), ("syntax", ".db 1, ,"), ("syntax", "x ="),
-    ("syntax", ".macro"), ("syntax", ".if 1"), ("syntax", "jmp [1"), ("syntax", "lda (1,x),y"),
+    ("syntax", ".macro 1"), ("syntax", ".if"), ("syntax", "jmp [1"), ("syntax", "lda (1,x),y"),
     ("undefined-operand", "lda zz_nowhere"), ("undefined-operand", "lda.w #zz_nowhere"),
     ("undefined-data", ".dw zz_nowhere"), ("undefined-data", ".db 1, zz_nowhere + 1"), ("undefined-org", "*=zz_nowhere"),
     ("undefined-macro", "zz_nomacro(1, 2)"), ("too-few-arguments", ".macro zz_m(a, b) {\n.db a, b\n}\nzz_m(1)"),
